@@ -88,6 +88,42 @@ def particle_best(args):
     return common.merge_stats(body, st)
 
 
+def particle_best_shared(args):
+    """Two particles of one population share ONE personal-best record (the same features dict): PSOGA creates exactly
+    that every generation (`offspring.features = selected.features`).  The rule of the property applies to each particle
+    in turn against the best AS IT IS THEN: best1 = old unless old does not dominate A; final = best1 unless best1 does not
+    dominate B."""
+    m, kind = args['m'], args['kind']
+    SW = _install()
+    st = common.install_comparator_summaries([m + 1])
+    prob = _problem(2, m)
+    alg = _algo(SW, kind, prob)
+
+    def body(ctx):
+        from artap.individual import Individual
+        Individual.counter = 0
+        pa = SW.IndividualSwarm([ctx.real('ax0'), ctx.real('ax1')])
+        pb = SW.IndividualSwarm([ctx.real('bx0'), ctx.real('bx1')])
+        A = common.sym_costs(ctx, 'a', m, 'bool')
+        B = common.sym_costs(ctx, 'b', m, 'bool')
+        old = common.sym_costs(ctx, 'old', m, 'bool')
+        pa.costs_signed, pb.costs_signed = A, B
+        pa.features['best_cost'] = old
+        pa.features['best_vector'] = [ctx.real('ox0'), ctx.real('ox1')]
+        pb.features = pa.features
+        alg.update_particle_best([pa, pb])
+        bc = pa.features['best_cost']
+        ctx.check('record-still-shared', pb.features is not pa.features)
+        same = lambda a, b: ec.same_vec(list(a), list(b)) if (a is not None and b is not None and len(a) == len(b)) else False
+        dOA, dOB, dAB = dominates(old, A), dominates(old, B), dominates(A, B)
+        ctx.check('shared-record-updated-particle-by-particle',
+                  Or(And(Not(dOA), Not(dAB), Not(same(bc, B))), And(Not(dOA), dAB, Not(same(bc, A))),
+                     And(dOA, Not(dOB), Not(same(bc, B))), And(dOA, dOB, Not(same(bc, old)))))
+        ctx.check('shared-record-never-replaced-by-a-position-it-dominates',
+                  And(Not(dOA), dAB, same(bc, B), Not(same(A, B))))
+    return common.merge_stats(body, st)
+
+
 def constriction(args):
     SW = _install()
 
@@ -228,6 +264,9 @@ def configs(tier):
     for kind in kinds:
         for m in (1, 2):
             out.append({'name': 'pbest-%s-m%d' % (kind, m), 'task': 'particle_best', 'args': {'m': m, 'kind': kind}, 'weight': 2})
+            if kind == 'psoga' or m == 2:
+                out.append({'name': 'pbest-shared-record-%s-m%d' % (kind, m), 'task': 'particle_best_shared',
+                            'args': {'m': m, 'kind': kind}, 'weight': 4})
         for dim in ((1, 2) if tier == 'quick' else (1, 2, 3)):
             for nlead in (1, 2):
                 out.append({'name': 'velocity-%s-d%d-l%d' % (kind, dim, nlead), 'task': 'velocity',
